@@ -15,6 +15,14 @@ use std::panic::{catch_unwind, AssertUnwindSafe};
 /// payload of a panic raised on purpose by a simulated callback
 pub struct CallbackPanic;
 
+/// No corpus enum has anywhere near this many variants: an iterator that yields more is broken
+/// (e.g. never ends), and the harness must not follow it into the allocator.
+const ITEM_LIMIT: usize = 1 << 20;
+
+fn too_many() -> ! {
+    panic!("the iterator yielded more than 2^20 items")
+}
+
 fn opt<T: Item>(o: &Option<T>) -> String {
     match o {
         Some(x) => format!("Some({})", x.render()),
@@ -48,6 +56,9 @@ impl<T: Item> ObsBuf<T> {
         }
     }
     fn see(&mut self, x: &T) {
+        if self.items.len() > ITEM_LIMIT {
+            too_many();
+        }
         if !self.text.is_empty() {
             self.text.push(',');
         }
@@ -100,6 +111,9 @@ pub fn apply<T: Item>(h: &mut Option<Dyn<T>>, op: &Op, out: &mut ObsBuf<T>) {
                 // straight at the object-safe level: checks the threaded accumulator too
                 let mut seen = Vec::new();
                 let r = it.0.fold(7, &mut |a, x| {
+                    if seen.len() > ITEM_LIMIT {
+                        too_many();
+                    }
                     seen.push(x);
                     a.wrapping_mul(31).wrapping_add(seen.len() as u64)
                 });
@@ -109,6 +123,9 @@ pub fn apply<T: Item>(h: &mut Option<Dyn<T>>, op: &Op, out: &mut ObsBuf<T>) {
             Rfold => {
                 let mut seen = Vec::new();
                 let r = it.0.rfold(7, &mut |a, x| {
+                    if seen.len() > ITEM_LIMIT {
+                        too_many();
+                    }
                     seen.push(x);
                     a.wrapping_mul(31).wrapping_add(seen.len() as u64)
                 });
@@ -124,27 +141,45 @@ pub fn apply<T: Item>(h: &mut Option<Dyn<T>>, op: &Op, out: &mut ObsBuf<T>) {
                 let _ = write!(out.text, "{}", r);
             }
             Collect => {
-                let v: Vec<T> = it.collect();
+                let v: Vec<T> = it.take(ITEM_LIMIT + 1).collect();
+                if v.len() > ITEM_LIMIT {
+                    too_many();
+                }
                 out.see_list(&v);
             }
             RevCollect => {
-                let v: Vec<T> = it.rev().collect();
+                let v: Vec<T> = it.rev().take(ITEM_LIMIT + 1).collect();
+                if v.len() > ITEM_LIMIT {
+                    too_many();
+                }
                 out.see_list(&v);
             }
             StepBy(s) => {
-                let v: Vec<T> = it.step_by((*s).max(1)).collect();
+                let v: Vec<T> = it.step_by((*s).max(1)).take(ITEM_LIMIT + 1).collect();
+                if v.len() > ITEM_LIMIT {
+                    too_many();
+                }
                 out.see_list(&v);
             }
             Skip(n) => {
-                let v: Vec<T> = it.skip(*n).collect();
+                let v: Vec<T> = it.skip(*n).take(ITEM_LIMIT + 1).collect();
+                if v.len() > ITEM_LIMIT {
+                    too_many();
+                }
                 out.see_list(&v);
             }
             SkipRev(n) => {
-                let v: Vec<T> = it.skip(*n).rev().collect();
+                let v: Vec<T> = it.skip(*n).rev().take(ITEM_LIMIT + 1).collect();
+                if v.len() > ITEM_LIMIT {
+                    too_many();
+                }
                 out.see_list(&v);
             }
             EnumerateRev => {
-                let v: Vec<(usize, T)> = it.enumerate().rev().collect();
+                let v: Vec<(usize, T)> = it.enumerate().rev().take(ITEM_LIMIT + 1).collect();
+                if v.len() > ITEM_LIMIT {
+                    too_many();
+                }
                 out.text.push('[');
                 for (i, x) in v {
                     let _ = write!(out.text, "{}:{},", i, x.render());
@@ -256,11 +291,17 @@ pub fn apply<T: Item>(h: &mut Option<Dyn<T>>, op: &Op, out: &mut ObsBuf<T>) {
             let _ = write!(out.text, "{:?}", it.size_hint());
         }
         TakeCollect(k) => {
-            let v: Vec<T> = it.by_ref().take(*k).collect();
+            let v: Vec<T> = it.by_ref().take((*k).min(ITEM_LIMIT + 1)).collect();
+            if v.len() > ITEM_LIMIT {
+                too_many();
+            }
             out.see_list(&v);
         }
         RevTakeCollect(k) => {
-            let v: Vec<T> = it.by_ref().rev().take(*k).collect();
+            let v: Vec<T> = it.by_ref().rev().take((*k).min(ITEM_LIMIT + 1)).collect();
+            if v.len() > ITEM_LIMIT {
+                too_many();
+            }
             out.see_list(&v);
         }
         TryFold(k) => {
@@ -322,7 +363,14 @@ pub fn apply<T: Item>(h: &mut Option<Dyn<T>>, op: &Op, out: &mut ObsBuf<T>) {
             let _ = write!(out.text, "{:?}", r);
         }
         StepByTake(s, k) => {
-            let v: Vec<T> = it.by_ref().step_by((*s).max(1)).take(*k).collect();
+            let v: Vec<T> = it
+                .by_ref()
+                .step_by((*s).max(1))
+                .take((*k).min(ITEM_LIMIT + 1))
+                .collect();
+            if v.len() > ITEM_LIMIT {
+                too_many();
+            }
             out.see_list(&v);
         }
         SkipNext(k) => {
@@ -773,9 +821,9 @@ pub fn run_history(m: &'static Module, history: &[Event], opts: &ExecOpts) -> Ru
                         nm.nth(k - 1);
                     }
                     let v: Vec<(i128, &'static str)> = match mode {
-                        0 => it.zip(nm).collect(),
-                        1 => it.rev().zip(nm.rev()).collect(),
-                        _ => it.zip(nm).rev().collect(),
+                        0 => it.zip(nm).take(ITEM_LIMIT).collect(),
+                        1 => it.rev().zip(nm.rev()).take(ITEM_LIMIT).collect(),
+                        _ => it.zip(nm).rev().take(ITEM_LIMIT).collect(),
                     };
                     (len0, v)
                 });
